@@ -51,8 +51,8 @@ func isContainer(x any) bool {
 }
 
 // children of a real container in the order the specification walks them
-func (d *driver) children(x any) []any {
-	var out []any
+func (d *driver) children(x any) (out []any) {
+	defer func() { recover() }()
 	switch c := x.(type) {
 	case at.List:
 		for i := 0; i < c.Count(); i++ {
@@ -98,6 +98,17 @@ func (d *driver) valOf(x any) model.Val {
 	return model.Val{K: "alien", V: 0}
 }
 
+// safeGet reads one slot; a panic of the library on a position inside the container is logged as an alien value
+func (d *driver) safeGet(f func() any) (v model.Val) {
+	defer func() {
+		if e := recover(); e != nil {
+			d.alien++
+			v = model.Val{K: "alien", V: 1}
+		}
+	}()
+	return d.valOf(f())
+}
+
 func (d *driver) project() model.Heap {
 	h := make(model.Heap, d.next-1)
 	for id := 1; id < d.next; id++ {
@@ -105,7 +116,8 @@ func (d *driver) project() model.Heap {
 		case at.List:
 			cell := model.Cell{T: "L", E: make([]model.Val, 0, c.Count())}
 			for i := 0; i < c.Count(); i++ {
-				cell.E = append(cell.E, d.valOf(c.Get(i)))
+				i := i
+				cell.E = append(cell.E, d.safeGet(func() any { return c.Get(i) }))
 			}
 			h[id-1] = cell
 		case at.Object:
@@ -114,7 +126,7 @@ func (d *driver) project() model.Heap {
 			for k := 1; k <= d.nkeys; k++ {
 				key := d.real.T.Str(k)
 				if c.KeyExists(key) {
-					cell.E[k-1] = d.valOf(c.Get(key))
+					cell.E[k-1] = d.safeGet(func() any { return c.Get(key) })
 					n++
 				} else {
 					cell.E[k-1] = model.Val{K: "absent"}
